@@ -3,7 +3,7 @@
 From Coq Require Import List ZArith NArith Bool Reals Lra.
 From T4V Require Import Base.Scalar C03.Vec C03.Model C03.Convert C03.Spec C03.SpecT4
   C03.ProofsPlanes C03.ProofsQuad C03.ProofsArb C03.ProofsConvert C03.ProofsWritten C03.Proofs
-  C03.LinkC04.
+  C03.ProofsExpand C03.ProofsExpandT4 C03.LinkC04.
 Import ListNotations.
 Open Scope R_scope.
 
@@ -90,4 +90,41 @@ Proof.
   - now apply ell_foci_facets_ok_full.
   - now apply wed_facets_ok_full.
   - now apply arb_facets_ok_full.
+Qed.
+
+(* TRCL=n (by number): the cell is moved by the transformation of card n *)
+Theorem trcl_by_number_linked (l : list R) (o : S4.R3) (b : V4.M3 R) star (n : R) trs trid :
+  card_gives l o b -> M4.lookup trid trs = M4.Ok l ->
+  M4.parse_trcl RS star [n] trs trid = M4.Ok l.
+Proof.
+  intros Hc Hl. apply T4V.C04.ProofsCard.inline_number; [exact Hl|].
+  destruct (card_transformation l o b Hc) as (E & _).
+  destruct l as [|? [|? [|? [|? [|? [|? [|? [|? [|? [|? [|? [|? [|? ?]]]]]]]]]]]]]; try discriminate.
+  reflexivity.
+Qed.
+
+(* the whole property text with the transformation read from a card *)
+Theorem reference_written_linked (l : list R) (o : S4.R3) (b : V4.M3 R)
+        (bd : body) (p : list R) (d : list N) (fs : list (pt -> R)) :
+  card_gives l o b -> fs <> [] ->
+  (exists es, body_parts RS bd p d = Ok es /\ Forall entry_wf es /\ Forall2 same_facet es fs) ->
+  forall ts, body_t4 RS (transf_of_list l) bd p d = Ok ts ->
+  forall (ns : list Z) (fv : Z -> R) (q : pt) (new_key n : Z),
+  ProofsExpandT4.numbered_t4 fv q ts ns ->
+  ((n < 0)%Z -> exists t k, expand new_key n None (ProofsExpandT4.ids_of_t4 ts ns) = Ok (t, k) /\
+                            (ProofsExpand.den fv t <-> inside_of fs (aux_c04 o b q))) /\
+  ((0 < n)%Z -> exists t k, expand new_key n None (ProofsExpandT4.ids_of_t4 ts ns) = Ok (t, k) /\
+                            (ProofsExpand.den fv t <-> outside_of fs (aux_c04 o b q))) /\
+  (forall k f, nth_error fs k = Some f -> n <> 0%Z ->
+     exists t, expand new_key n (Some (S k)) (ProofsExpandT4.ids_of_t4 ts ns) = Ok (t, new_key) /\
+               (ProofsExpand.den fv t <->
+                if (0 <? n)%Z then 0 < f (aux_c04 o b q) else f (aux_c04 o b q) < 0)) /\
+  (forall k, (List.length fs < k)%nat ->
+     expand new_key n (Some k) (ProofsExpandT4.ids_of_t4 ts ns) = Err ECellConv).
+Proof.
+  intros Hc Hne Hb ts Et ns fv q new_key n Hnum.
+  destruct (card_transformation l o b Hc) as (El & Ho). rewrite El in Et.
+  pose proof (ProofsExpandT4.reference_written (Some (transf_of_c04 o b)) bd p d fs Ho Hne Hb
+                ts Et ns fv q new_key n Hnum) as H.
+  cbn [frame_of] in H. rewrite to_aux_c04 in H. exact H.
 Qed.
